@@ -106,7 +106,8 @@ RetryUp(s, i, p, pr) ==
            ex == (p.max # -1 /\ f > p.max) \/ (p.maxd # 0 /\ elapsed > p.maxd)      \* maxRetriesExceeded || maxDurationExceeded
            ab == AbortsCode(p.a, pr.r, pr.e)
            \* getDelay: fixed delay, clamped to the remaining max duration, never negative
-           dl0 == IF p.maxd # 0 THEN (IF p.dly < p.maxd - elapsed THEN p.dly ELSE p.maxd - elapsed) ELSE p.dly
+           base == RetryDelayOf(p, pr.r, pr.e)
+           dl0 == IF p.maxd # 0 THEN (IF base < p.maxd - elapsed THEN base ELSE p.maxd - elapsed) ELSE base
            dl == IF dl0 < 0 THEN 0 ELSE dl0
            shouldRetry == ~ab /\ ~ex /\ (p.max = -1 \/ p.max > 0)
            done == ab \/ ~shouldRetry
@@ -180,7 +181,8 @@ RunToChoice(s) == IF AtChoice(s) THEN s ELSE RunToChoice(Step(s))
 (* ---- environment ---- *)
 Probe(s) == [id \in StatefulIds |->
                LET p == DescOf(id) IN
-               CASE p.k = "cb" -> [k |-> "cb", state |-> s.pol[id].st, m |-> BO(p.cfg)!Metrics(s.pol[id].stats)]
+               CASE p.k = "cb" -> [k |-> "cb", state |-> s.pol[id].st, m |-> BO(p.cfg)!Metrics(s.pol[id].stats),
+                                   permits |-> IF s.pol[id].st = "halfopen" THEN s.pol[id].permitted ELSE -1]
                  [] p.k = "rl" -> [k |-> "rl", left |-> RlRoll(p, s.pol[id], s.now).left]
                  [] p.k = "bh" -> [k |-> "bh", used |-> s.pol[id]]
                  [] p.k = "cache" -> [k |-> "cache", entries |-> s.pol[id]]]
